@@ -413,7 +413,10 @@ class Gen:
                     sp['flag'] = r.choice('+-')
             if sp.get('width') is None:
                 sp.pop('width')
-        if self.string_atoms and r.random() < 0.6:
+        verb = [i for i in self.atoms if atoms.CATALOGUE[i].kind == 'verb' and ':' not in atoms.CATALOGUE[i].arg]
+        if verb and r.random() < 0.15 and any(key in sp for key in ('fill', 'align', 'width')):
+            sp['ansi'] = [r.choice(verb)]     # a verbatim "[..." directive is only valid as the sole directive
+        elif self.string_atoms and r.random() < 0.6:
             k = r.choice([1, 1, 2])
             ids = [r.choice(self.string_atoms) for _ in range(k)]
             # a spec without string part whose ansi part starts with a digit/align/sign is ambiguous
@@ -473,7 +476,9 @@ class Gen:
         t = world.obs[s].text
         chars = None
         if r.random() < 0.6 and t:
-            chars = ''.join(sorted(set(r.choice([t[0], t[-1], r.choice(t)]) for _ in range(r.choice([1, 2])))))
+            chars = ''.join(sorted(set(r.choice([t[0], t[-1], r.choice(t)]) for _ in range(r.choice([1, 2, 3])))))
+            if r.random() < 0.05:
+                chars = ''
         op = {'op': 'strip', 'r': s, 'd': self.slot(), 'ip': self.ip(), 'how': r.choice(['strip', 'lstrip', 'rstrip']),
               'chars': chars}
         if chars is None and r.random() < 0.3:
@@ -498,7 +503,7 @@ class Gen:
         if r.random() < 0.75:
             op['sep'] = self.pattern(world.obs[s]) or '-'
         if r.random() < 0.4:
-            op['max'] = r.choice([-1, 0, 1, 2, 3])
+            op['max'] = r.choice([-1, 0, 1, 2, 3, 9])
         return op
 
     def g_splitlines(self, world):
@@ -525,7 +530,7 @@ class Gen:
         op = {'op': 'replace', 'r': s, 'd': self.slot(), 'ip': self.ip(), 'old': old,
               'new': self.operand(world, s if r.random() < 0.3 else None, maxlen=6)}
         if r.random() < 0.4:
-            op['count'] = r.choice([-1, 0, 1, 2])
+            op['count'] = r.choice([-1, 0, 1, 2, 9])
         return op
 
     def g_expandtabs(self, world):
@@ -534,7 +539,7 @@ class Gen:
         s = r.choice(cands) if cands else self.recv_slot(world, maxlen=24)
         op = {'op': 'expandtabs', 'r': s, 'd': self.slot(), 'ip': self.ip()}
         if r.random() < 0.7:
-            op['tab'] = r.choice([0, 1, 2, 4])
+            op['tab'] = r.choice([0, 1, 2, 4, 4, 8, -1])
         return op
 
     def g_fmatch(self, world):
